@@ -272,6 +272,9 @@ def scripted(name):
         # both sides delete the same CHILD_SA at once; A's DELETE request is delayed in the network; meanwhile B completes
         # its own DELETE and creates a new CHILD_SA RE-USING its old inbound SPI; only then A's request is delivered and
         # answered: A must not touch the new CHILD_SA when it handles that late response
+        # the local kernel asks the RESPONDER for a CHILD_SA while its IKE_SA is still half-open: the ACQUIRE is queued and
+        # stays queued after IKE_AUTH (the queue is drained only when a response arrives)
+        'acquire_queued_at_responder': [['acquire', 'A', 80], D, ['acquire', 'B', 0], D, D, D, ['tick', 1]],
         'spi_reuse_after_crossing_delete': HANDSHAKE + [['expire', 'A', 0, 1], ['expire', 'B', 0, 1], ['deliver', 1],
                                                         ['deliver', 1], ['force_spi_first', 'B'], ['acquire', 'B', 0],
                                                         ['deliver', 1], ['deliver', 1], D, D, D, D],
@@ -294,7 +297,7 @@ SCRIPTED = ['handshake', 'new_child', 'new_child_from_responder', 'rekey_child',
 # scripted histories that need something special (forced SPI collisions, a postponed IKE_SA rekey): used by the
 # handler correspondence and by individual oracles, not by the generic plans
 SPECIAL = ['spi_collision_out', 'spi_collision_in', 'spi_collision_rekey', 'postponed_rekey_then_child', 'ike_spi_reuse',
-           'crossing_children', 'cookie_handshake', 'spi_reuse_after_crossing_delete']
+           'crossing_children', 'cookie_handshake', 'spi_reuse_after_crossing_delete', 'acquire_queued_at_responder']
 
 
 def random_walk(rng, n, handshake=True, weights=None):
